@@ -1,7 +1,11 @@
 #!/bin/bash
-# runs every seeded change against the quick check of its property, each in a scratch worktree (does not touch /repo)
+# runs every seeded change against the quick check of its property, each in a scratch worktree (does not touch /repo);
+# a change whose meta.json has "caught_by" is run against that check instead; "obsolete_after_fix" entries are skipped
 cd /verif
 for d in seeded/*/; do
   n=$(basename $d); p=${n%%_*}
-  ./tools/run_seed_wt.sh $n $p
+  [ -f $d/patch.diff ] || continue
+  if grep -q '"obsolete_after_fix"' $d/meta.json; then echo "$n: obsolete after a repair of the library (see meta.json)"; continue; fi
+  q=$(/venv/bin/python -c "import json,sys; print(json.load(open('$d/meta.json')).get('caught_by','$p'))" 2>/dev/null)
+  ./tools/run_seed_wt.sh $n ${q:-$p}
 done
